@@ -13,9 +13,9 @@ from simkit import gen, model
 from simkit.harness import World
 
 TIERS = {
-    "C04": {"quick": 1200, "thorough": 30000},
-    "C11": {"quick": 1200, "thorough": 30000},
-    "C12": {"quick": 2400, "thorough": 50000},
+    "C04": {"quick": 1200, "thorough": 10000},
+    "C11": {"quick": 1200, "thorough": 10000},
+    "C12": {"quick": 2400, "thorough": 20000},
 }
 LEVEL = {"C04": "fault_enumeration", "C11": "fault_enumeration", "C12": "exploration"}
 RULE = {
